@@ -1,7 +1,7 @@
 """Iterator models (std::iter over concrete-length sequences) and pulp::Simd lane models."""
 import re
 import z3
-from .vm import (Struct, Enum, Seq, Ref, SliceRef, Iter, Closure, Opaque, FnItem, UNIT, NONE, SOME, ret, panic, is_sym, VMError, Unmodelled, _prod)
+from .vm import (Struct, Enum, Seq, Ref, SliceRef, Iter, Closure, Opaque, FnItem, UNIT, NONE, SOME, OK, ERR, ret, panic, is_sym, VMError, Unmodelled, _prod)
 from .alg import Fl
 from .intrinsics import slice_refs, as_slice, deref_val, slice_items
 
@@ -77,6 +77,37 @@ def dispatch(vm, m, c, args):
             it = to_iter(vm, m, args[0])
             if it.stages: raise Unmodelled('rev of mapped iterator')
             return ret(m, Iter(tuple(reversed(it.items))))
+        if n == 'flat_map':
+            # the closure's results are flattened: Result / Option contribute their payload or nothing, sequences contribute their items
+            it = to_iter(vm, m, args[0]); ms = [(m, [])]
+            for k in range(len(it.items)):
+                nxt = []
+                for (m1, acc) in ms:
+                    for (m2, kind, v) in pull(vm, m1, it, k):
+                        if kind != 'ret': return [(m2, kind, v)]
+                        if v is SKIP: nxt.append((m2, acc)); continue
+                        for (m3, kind3, r) in vm.call_closure(m2, args[1], [v]):
+                            if kind3 != 'ret': return [(m3, kind3, r)]
+                            if isinstance(r, Enum) and r.name in ('Ok', 'Some'): nxt.append((m3, acc + [r.f[0]]))
+                            elif isinstance(r, Enum) and r.name in ('Err', 'None'): nxt.append((m3, acc))
+                            else: nxt.append((m3, acc + list(to_iter(vm, m3, r).items)))
+                ms = nxt
+            return [(m1, 'ret', Iter(acc)) for (m1, acc) in ms]
+        if n == 'try_for_each':
+            # stops at the first Err / None the closure returns and hands it back; Ok(()) / Some(()) when every item was accepted
+            it = to_iter(vm, m, args[0]); live = [m]; done = []
+            for k in range(len(it.items)):
+                nxt = []
+                for m1 in live:
+                    for (m2, kind, v) in pull(vm, m1, it, k):
+                        if kind != 'ret': done.append((m2, kind, v)); continue
+                        for (m3, kind3, r) in vm.call_closure(m2, args[1], [v]):
+                            if kind3 != 'ret': done.append((m3, kind3, r))
+                            elif isinstance(r, Enum) and r.name in ('Err', 'None'): done.append((m3, 'ret', r))
+                            else: nxt.append(m3)
+                live = nxt
+            ok = OK(UNIT) if 'Result' in c else SOME(UNIT)
+            return done + [(m1, 'ret', ok) for m1 in live]
         if n == 'for_each':
             it = to_iter(vm, m, args[0]); ms = [m]
             for k in range(len(it.items)):
